@@ -50,8 +50,28 @@ def exc_kind(prefix, e):
     return '%s%s@%s:%s' % (prefix, type(e).__name__, where[0], where[1])
 
 
+def cut_points(data, exp):
+    """Every cut for files up to 3000 bytes; for larger ones every cut in
+    and around each header and the first and last 64 bytes of each content,
+    plus ~1500 evenly spaced cuts."""
+    n = len(data)
+
+    if n <= 3000:
+        return range(0, n + 1)
+
+    cuts = set(range(0, n + 1, max(1, n // 1500)))
+    cuts.add(n)
+
+    for r in exp:
+        hs_, cs, ce = r['span']
+        cuts.update(range(max(0, hs_ - 2), min(n, cs + 64) + 1))
+        cuts.update(range(max(0, ce - 64), min(n, ce + 2) + 1))
+
+    return sorted(cuts)
+
+
 def judge_truncations(data, exp, intact, st, case):
-    for cut in range(0, len(data) + 1):
+    for cut in cut_points(data, exp):
         _judge_cut(data, exp, intact, st, case, cut)
 
 
@@ -241,6 +261,13 @@ def run_case(case, st):
                                   if err is None else None), case)
         return
 
+    if case.get('cold'):
+        sub = {k: v for k, v in case.items() if k not in ('cut', 'cold')}
+        from dxv import engine
+        engine.run_isolated(_cold_pass, {'data': data, 'case': sub}, st)
+        st.case(case, nontrivial=True)
+        return
+
     if 'cut' in case:
         # replay of one coordinate
         sub = {k: v for k, v in case.items() if k != 'cut'}
@@ -260,11 +287,111 @@ def run_case(case, st):
 
     judge_truncations(data, exp, intact, st, case)
     judge_perturbations(data, exp, intact, st, case)
+    # the same truncations in a process that has not seen the intact file,
+    # shortest first, and through the object model, longest first
+    from dxv import engine
+    engine.run_isolated(_cold_pass, {'data': data, 'case': case}, st)
     ncontent = sum(1 for r in exp if r['kind'] != 'container')
     st.case(case, nontrivial=ncontent >= 1,
             classes=['bytes-%s' % ('<500' if len(data) < 500 else
                                    '<2000' if len(data) < 2000 else '2000+'),
                      'writer-file' if 'program' in case else 'foreign-file'])
+
+
+def _cold_pass(payload, st):
+    """Runs in a forked child: no intact read has happened here."""
+    ns = sut.load()
+    from dxv import trees
+    data, case = payload['data'], payload['case']
+    exp, _ = spec.ref_parse(data)
+    # expected intact records, from the reference parser (the parent has
+    # already checked that the reader agrees with them)
+    cold_intact = None
+
+    for cut in cut_points(data, exp):
+        recs, err = sut.read_records(data[:cut])
+
+        if err is not None and not isinstance(err, ns.DiffXParseError):
+            continue          # judged by the warm pass
+
+        if len(recs) > len(exp):
+            continue
+
+        # all complete records whenever their number changes (and now and
+        # then), otherwise just the newest complete one
+        if len(recs) != cold_intact or cut % 16 == 0:
+            lo = 0
+        else:
+            lo = max(0, len(recs) - 2)
+
+        cold_intact = len(recs)
+        hi = max(0, len(recs) - 1)
+        res = foreign.compare(recs[lo:hi], exp[lo:hi])
+
+        if res is not None:
+            st.violation('truncation-altered-section-in-a-fresh-process',
+                         'cut %d: %s' % (cut, res[1][:300]),
+                         dict(case, cut=cut, cold=True))
+            break
+
+    # object model, longest first: a failed load must not leak into the next
+    n = len(data)
+    dom_cuts = sorted(set(range(0, min(n, 120) + 1)) |
+                      set(range(max(0, n - 60), n + 1)) |
+                      set(range(0, n + 1, max(7, n // 300))), reverse=True)
+
+    for cut in dom_cuts:
+        blob = data[:cut]
+        recs, err = sut.read_records(blob)
+
+        tree = None
+
+        try:
+            tree = ns.DiffX.from_bytes(blob)
+        except Exception:
+            pass
+
+        # whatever that load did, loading nothing afterwards gives nothing
+        try:
+            empty = trees.content_list(trees.snapshot(
+                ns.DiffX.from_bytes(b'')))
+        except Exception as e:
+            empty = repr(e)
+
+        if empty != [('diffx', None)]:
+            st.violation('object-model-load-depends-on-the-previous-load',
+                         'after loading the first %d bytes (%s), loading an '
+                         'empty stream gives %r'
+                         % (cut, 'failed' if tree is None else 'ok',
+                            _short(empty)),
+                         dict(case, cut=cut, cold=True))
+            break
+
+        if tree is None or err is not None:
+            continue
+
+        want = [('diffx', None)]
+
+        for r in recs[1:]:
+            kind = spec.kind_of(r['section'])
+            c = None
+
+            if kind != 'container':
+                c = r.get(foreign.CONTENT_KEY[kind])
+
+                if not c:
+                    continue
+
+            want.append((r['section'], c))
+
+        got = trees.content_list(trees.snapshot(tree))
+
+        if got != want:
+            st.violation('object-model-load-differs-from-reader',
+                         'cut %d: tree holds %r, the reader yields %r'
+                         % (cut, _short(got), _short(want)),
+                         dict(case, cut=cut, cold=True))
+            break
 
 
 def _judge_cut(data, exp, intact, st, case, cut):
@@ -425,7 +552,7 @@ def cases(draw):
     return {'program': draw(gen.programs(max_changes=2, max_files=2))}
 
 
-def checks():
+def _checks():
     return [
         HypCheck(
             'large-sections', large_cases, run_large_entry,
@@ -438,14 +565,29 @@ def checks():
                  'prefix-of-intact-records oracle; every case non-trivial'),
         HypCheck(
             'truncate-and-perturb', cases, run_case,
-            budget={'quick': (16, 16), 'thorough': (16, 320)},
+            budget={'quick': (16, 10), 'thorough': (16, 320)},
             rule='well-formed files (writer programs and foreign files whose '
                  'content includes complete fake sections) x EVERY cut point '
-                 '0..len(file) (records must be a prefix of the intact '
+                 '0..len(file) (files over 3000 bytes: every cut in and '
+                 'around each header and the ends of each content, plus '
+                 '~1500 evenly spaced ones) (records must be a prefix of the intact '
                  'records, then normal end or DiffXParseError) and, for '
                  'every content header, length replaced by L+-{1,2,3}, 0, '
                  'rest, rest+1, rest+100, 10^20, -1, -L, abc, 1.5, 1e3, x1, '
                  '0L, Lx (exact framing / rejection); non-trivial = file '
-                 'with >= 1 content section (all its cuts and perturbations '
+                 'with >= 1 content section (all its cuts and perturbations; '
+                 'the cuts are repeated in a freshly forked process, '
+                 'shortest first and without reading the intact file, and '
+                 'through the object model, longest first, '
                  'run; counted per cut region in classes)'),
     ]
+
+
+def checks():
+    out = _checks()
+
+    for c in out:
+        if c.name in ['truncate-and-perturb']:
+            c.isolated = True
+
+    return out
